@@ -36,8 +36,21 @@ TKnown ==
           /\ PrintT(<<"KNOWN-USED", ToJson([id |-> Known[i].id, seq |-> l])>>)
     /\ l' = l + 1 /\ UNCHANGED seen
 
+(* a set on which one path fails must fail on every path (the result is a function of the set) *)
+TAvkError ==
+    /\ IsEvent("AvkError")
+    /\ \A s \in seen : s.set = E.set => s.avk = "error"
+    /\ seen' = seen \cup {[set |-> E.set, avk |-> "error", total |-> "error", slots |-> "n/a"]}
+
+(* the signer node and the aggregator node derived the same commitment: a registered party's own signature *)
+(* (made over ITS derivation) is accepted by the aggregator's multi-signer; "no-win": nothing to compare   *)
+TSignerView ==
+    /\ IsEvent("SignerView")
+    /\ E.accepted \in {"yes", "no-win"}
+    /\ UNCHANGED seen
+
 TPredicted == IsEvent("Predicted") /\ UNCHANGED seen      \* model prediction, informational
-TraceNext == TAvk \/ TPredicted \/ TKnown
+TraceNext == TAvk \/ TAvkError \/ TSignerView \/ TPredicted \/ TKnown
 TraceSpec == TraceInit /\ [][TraceNext]_tvars
 TraceAccepted ==
     LET d == TLCGet("stats").diameter - 1 IN
